@@ -571,6 +571,10 @@ def synthesize(update_working_block=True, merge_io_vectors=True, block=None):
         out_mems = block_out.mem_map  # dictionary: PreSynth Map -> PostSynth Map
         for net in block_in.logic:
             _decompose(net, wirevector_map, out_mems, block_out)
+        # out_mems is keyed by the memories of the intermediate copy (block_in);
+        # key the returned map by the original design's memories instead.
+        orig_mem_map = {temp: orig for orig, temp in block_in.mem_map.items()}
+        block_out.mem_map = {orig_mem_map[temp]: new for temp, new in out_mems.items()}
 
     if update_working_block:
         set_working_block(block_out, no_sanity_check=True)
